@@ -131,10 +131,14 @@ func (p *parser) ParseConfig(data []byte, fName string) (
 				indent = getIndent()
 			} else {
 				if getIndent() < indent {
+					first := "..." // First subcommand was ignored.
+					if len(prev.sub) > 0 {
+						first = prev.sub[0].parsed
+					}
 					return nil,
 						fmt.Errorf("Bad indentation in subcommands:\n"+
 							">>%s<<\n>>%s<<",
-							strings.Repeat(" ", indent)+prev.sub[0].parsed, line)
+							strings.Repeat(" ", indent)+first, line)
 				}
 			}
 			line = line[indent:]
